@@ -29,7 +29,7 @@ type groupTests interface {
 	ScalarMulCase(t *rapid.T)
 	ScalarLaws(t *rapid.T)
 	MSMCase(t *rapid.T)
-	MSMEmpty(t *testing.T) (panicked []string, ok []string)
+	MSMEmpty(t *testing.T)
 	OutsideSubgroup(t *testing.T)
 }
 
